@@ -64,10 +64,19 @@ class VLoop(asyncio.BaseEventLoop):
 
     # -- fd watching -----------------------------------------------------------
     def add_reader(self, fd, callback, *args):
+        old = self._readers.get(fd)
+        if old is not None:
+            old.cancel()
         self._readers[fd] = asyncio.Handle(callback, args, self, None)
 
     def remove_reader(self, fd):
-        return self._readers.pop(fd, None) is not None
+        # like selector_events._remove_reader: the handle is cancelled, so a callback already queued for this
+        # iteration does not run
+        h = self._readers.pop(fd, None)
+        if h is None:
+            return False
+        h.cancel()
+        return True
 
     # -- things BaseEventLoop leaves abstract that we do not need -----------------
     def _write_to_self(self):
